@@ -112,7 +112,9 @@ def make_base(spec, mixins=()):
                 "derivatives": [mk("der(%s)" % n) for n in s.get("states", [])],
                 "algebraics": [mk(n) for n in s.get("algebraics", [])],
                 "control_inputs": [mk(n) for n in s.get("controls", [])],
-                "constant_inputs": [mk(n) for n in s.get("constant_inputs", [])],
+                # (names under "extra_cin" are constant inputs that only the objective / constraints use: they
+                #  are not variables of the DAE)
+                "constant_inputs": [mk(n) for n in s.get("constant_inputs", []) if n not in s.get("extra_cin", [])],
                 "parameters": [mk(n) for n in s.get("parameters", [])],
                 "time": [mk("time")],
                 "lookup_tables": [],
@@ -130,6 +132,8 @@ def make_base(spec, mixins=()):
                 else:
                     self._path_vars.append(mk(n))
             self._extra_vars = [mk(n) for n in s.get("extra_variables", [])]
+            for n in s.get("extra_cin", []):
+                mk(n)
             self._alias = AliasRelation()
             for a, b in s.get("aliases", []):
                 self._alias.add(a, b)
@@ -204,7 +208,9 @@ def make_base(spec, mixins=()):
         def constant_inputs(self, ensemble_member):
             m = ensemble_member
             d = AliasDict(self.alias_relation)
+            series = self._spec.get("constant_input_series", [{}] * self.ensemble_size)[m]
             for k, v in self._spec.get("constant_input_values", [{}] * self.ensemble_size)[m].items():
+                v = series.get(k, v)            # the series as the user gives it (own time axis)
                 ts = v["times"] if isinstance(v, dict) else self._spec["times"]
                 vals = v["values"] if isinstance(v, dict) else v
                 d[k] = Timeseries(np.array([fl(x) for x in ts]), np.array([fl(x) for x in vals]))
